@@ -114,12 +114,16 @@ def addr(a):
     return int(a[1])
 
 
-def run_impl(drv, rc, tmo, table, dflt, ticks, own=True):
+def run_impl(drv, rc, tmo, table, dflt, ticks, own=True, retry_ms=None, tick=None):
     """drv in Bare|Patron|Stack; rc bool; tmo int ticks; ticks = [(dt, cut)].
     own=True: Patron / TcpClientStack build their tcp Client THEMSELVES (Patron.__init__ /
     TcpClientStack.createHandler) and the harness advances ONLY the owner's store; own=False: the
     harness constructs the Client and hands it over (connector= / handler=).
+    retry_ms (Patron only): the response is a server-sent-event stream (respondent.evented) with that
+    retry value; tick = seconds per model time unit (default 1/8; use 1/64 with retry_ms).
     returns (flat observation list, info dict)"""
+    import math
+    TICK = tick if tick is not None else globals()["TICK"]
     from ioflo.aio.tcp import clienting
     from ioflo.base import storing
     w = World(table, dflt)
@@ -141,6 +145,9 @@ def run_impl(drv, rc, tmo, table, dflt, ticks, own=True):
                 client = top.connector
             else:
                 top = hclienting.Patron(connector=client, store=store)
+            if retry_ms is not None:
+                top.respondent.evented = True
+                top.respondent.retry = retry_ms
         elif drv == "Stack":
             from ioflo.aio.proto import stacking
             if own:
@@ -157,7 +164,7 @@ def run_impl(drv, rc, tmo, table, dflt, ticks, own=True):
                     cs.sid if cs is not None else -1,
                     cs.k if cs is not None else -1,
                     w.nsock, addr(client.ca), addr(client.ha), lha,
-                    int(round(client.timer.start / TICK)), int(round(client.timer.duration / TICK)),
+                    int(round(client.timer.start / TICK)), int(math.ceil(client.timer.duration / TICK - 1e-9)),
                     int(round(store.stamp / TICK))]
 
         out = obs()
